@@ -267,8 +267,9 @@ QUERIES = ('reach', 'order', 'complete', 'deadlock', 'after_return', 'cancelled'
            'src_error_position', 'readahead_pulled', 'readahead_started', 'threshold')
 
 
-def encode(sysm, bd, mode):
-    """returns (solver, decode) for the negated property `mode`"""
+def encode(sysm, bd, mode, free_init=False):
+    """returns (solver, decode) for the negated property `mode`.
+    free_init: the first state is left unconstrained (one-step induction queries, engine/bmc/induct.py); mode 'none' adds no property."""
     prog, comps, c = sysm.prog, sysm.comps, sysm.compiler
     threads = sysm.threads
     pool = sysm.pool_kind is not None
@@ -329,19 +330,22 @@ def encode(sysm, bd, mode):
         return S
     St = [mk(k) for k in range(K + 1)]
     S0 = St[0]
+    init_cs = []
     for v, (typ, init) in prog.vars.items():
         if isinstance(init, ast.AST):
-            s.add(S0[v] == c.ev(init, dict(consts)))          # e.g. threading.Semaphore(buffer_size)
+            init_cs.append(S0[v] == c.ev(init, dict(consts)))          # e.g. threading.Semaphore(buffer_size)
         else:
-            s.add(S0[v] == (z3.BoolVal(init) if typ == 'bool' else IV(init)))
+            init_cs.append(S0[v] == (z3.BoolVal(init) if typ == 'bool' else IV(init)))
     for q in prog.queues:
-        s.add(S0[q + '.len'] == 0)
+        init_cs.append(S0[q + '.len'] == 0)
     for th in threads:
-        s.add(S0['pc.' + th] == comps[th]['entry'])
+        init_cs.append(S0['pc.' + th] == comps[th]['entry'])
         if th != '$main':
-            s.add(z3.Not(S0[f'${th}.started']))
-    s.add(S0['$pulled'] == 0, S0['$delivered'] == 0, S0['$raised'] == 0, z3.Not(S0['$closed']), z3.Not(S0['$bad_order']),
-          z3.Not(S0['$src_failed']), z3.Not(S0['$late_start']))
+            init_cs.append(z3.Not(S0[f'${th}.started']))
+    init_cs += [S0['$pulled'] == 0, S0['$delivered'] == 0, S0['$raised'] == 0, z3.Not(S0['$closed']), z3.Not(S0['$bad_order']),
+                z3.Not(S0['$src_failed']), z3.Not(S0['$late_start'])]
+    if not free_init:
+        s.add(init_cs)
 
     def finished(S, th):
         cm = comps[th]
@@ -423,7 +427,10 @@ def encode(sysm, bd, mode):
     cm = comps['$main']
     all_fin = lambda S: z3.And([finished(S, th) for th in threads])
     no_fail = z3.And(consts['$fail_at'] == -1, consts['$taskfail'] == -1)
-    if mode == 'reach':
+    s.vctx = dict(St=St, consts=consts, names=names, init=init_cs, ch=ch, cond=cond, threads=threads, comps=comps)
+    if mode == 'none':
+        pass
+    elif mode == 'reach':
         s.add(all_fin(last), last['$delivered'] == n, n == bd.N, consts['$close_at'] == -1, no_fail)
     elif mode == 'deadlock':
         s.add(z3.Or(deads))
